@@ -71,7 +71,7 @@ def _enum_values(path: str) -> dict[str, str]:
 
 class Tr:
     def __init__(self):
-        self.enums = {**_enum_values(TYPES), **_enum_values(SSL)}
+        self.enums = {**_enum_values(TYPES), **_enum_values(SSL), **_enum_values(MT)}
         self.tree = parse_file(REPO / MT)
         self.ssl_tree = parse_file(REPO / SSL)
         self.wrappers = {}  # alias -> module class
@@ -568,3 +568,710 @@ register("C08", [
     Kernel("builder_flags", MT, "build_supervised_mri_transforms", [], "(32 : Int)",
            lambda k, fn: f"def {k.name} : Int := ({len(fn.args.args)} : Int)\n", imports=("DirectVerif.Model.Pipeline", "DirectVerif.Lemmas.C08NF")),
 ])
+
+
+# =================================================================================================
+# Stage programs: `forward` / `__call__` of every transform class -> `List Instr`
+#
+# A small symbolic executor of the method bodies.  Locals are bound to *locations* (a sample key, or a temporary
+# `.t1 … .t5` allocated in order of first need), non-tensor values (shapes, dims, seeds, constants) are META.
+# Tensor expressions are recognised from a fixed vocabulary of call patterns; layout-only calls (`clone`, `float`,
+# `unsqueeze`, `permute`, `view_as_complex`, …) are the identity.  Conditions on constructor parameters are decided
+# by partial evaluation (the method is executed once per value of every enum / Boolean stage parameter and the
+# results are assembled into a Lean `match`); `key in sample` tests become guards / `require`; conditions on the
+# tensor rank may only select layout-only code (or the slice sum of `ComputeZeroPadding`).  Anything else is
+# `Untranslatable` and the stage is emitted as the hand-written program (`skipped`).
+class Meta:
+    """a non-tensor value"""
+    def __init__(self, what="meta", val=None):
+        self.what, self.val = what, val
+
+
+class Loc:
+    """a tensor stored under a sample key / temporary (`term` is a Lean `Key` term)"""
+    def __init__(self, term, temp=False, kind="data"):
+        self.term, self.temp, self.kind = term, temp, kind
+
+
+class Zeros:
+    def __init__(self, like: Loc | None):
+        self.like = like
+
+
+IDENTITY_METHODS = {"clone", "float", "to", "bool", "contiguous", "unsqueeze", "squeeze", "reshape", "permute", "int"}
+IDENTITY_FUNCS = {"T.view_as_complex", "T.view_as_real", "T.to_tensor", "torch.from_numpy", "torch.view_as_complex",
+                  "torch.view_as_real", "np.asarray"}
+TEMPS = [".t1", ".t2", ".t3", ".t4", ".t5"]
+_MISSING = object()
+
+
+class StageExec:
+    def __init__(self, tr: "Tr", tree, cls: str, method: str, params: dict, keyvars: dict):
+        """params: `self.attr` -> python abstract value (True/False/None/"truthy"/Meta/str enum member text);
+        keyvars: `self.attr` -> Lean key term"""
+        self.tr, self.tree, self.cls = tr, tree, cls
+        self.params, self.keyvars = params, keyvars
+        self.out: list[str] = []
+        self.locals: dict[str, object] = {}
+        self.guards: list[str] = []
+        self.ntemp = 0
+        self.used_temps: list[str] = []
+        self.consumed: set[str] = set()
+        self.required: list[str] = []
+        self.dicts: dict[str, dict] = {}
+        self.intermediate: set[str] = set()
+        self.fn = find_function(tree, f"{cls}.{method}")
+
+    # ---- helpers ---------------------------------------------------------------------------------
+    def fresh(self) -> Loc:
+        if self.ntemp >= len(TEMPS):
+            raise Untranslatable(f"{self.cls}: more than {len(TEMPS)} temporaries")
+        t = TEMPS[self.ntemp]
+        self.ntemp += 1
+        self.used_temps.append(t)
+        return Loc(t, temp=True)
+
+    def emit_assign(self, dst: str, op: str, args: list[str]):
+        g = "[" + ", ".join(self.guards) + "]"
+        self.out.append(f".assign {g} {dst} {op} [{', '.join(args)}]")
+
+    def sample_key(self, node: ast.AST):
+        """Lean key term of a `sample[...]` subscript index; None for keys outside the tensor vocabulary"""
+        t = ast.unparse(node)
+        if t in self.keyvars:
+            return self.keyvars[t]
+        if isinstance(node, ast.BinOp) and isinstance(node.op, ast.Add):
+            # prefix + key  (SSL)
+            pre = self.tr.string(node.left)
+            rt = ast.unparse(node.right)
+            if rt in self.keyvars:
+                inner = self.keyvars[rt]
+                if pre == "input_":
+                    return f"({inner}.prefixed true)"
+                if pre == "target_":
+                    return f"({inner}.prefixed false)"
+            s = pre + self.tr.string(node.right)
+            return KEYS.get(s)
+        try:
+            s = self.tr.string(node)
+        except Untranslatable:
+            raise Untranslatable(f"{self.cls}: sample key `{t}`")
+        return KEYS.get(s)
+
+    def is_sample_sub(self, node) -> bool:
+        return isinstance(node, ast.Subscript) and ast.unparse(node.value) == "sample"
+
+    # ---- abstract values of parameters / conditions ----------------------------------------------
+    def pval(self, node: ast.AST):
+        """python value of a parameter expression, or _MISSING"""
+        t = ast.unparse(node)
+        if t in self.params:
+            return self.params[t]
+        if isinstance(node, ast.Constant):
+            return node.value
+        if isinstance(node, ast.Attribute) and t in self.tr.enums:
+            return t
+        if isinstance(node, (ast.List, ast.Tuple)):
+            vs = [self.pval(e) for e in node.elts]
+            return _MISSING if any(v is _MISSING for v in vs) else vs
+        return _MISSING
+
+    def truth(self, node: ast.AST):
+        """True / False / None (unknown) of a condition, by partial evaluation over the parameters"""
+        if isinstance(node, ast.UnaryOp) and isinstance(node.op, ast.Not):
+            v = self.truth(node.operand)
+            return None if v is None else not v
+        if isinstance(node, ast.BoolOp):
+            vs = [self.truth(v) for v in node.values]
+            if isinstance(node.op, ast.And):
+                if any(v is False for v in vs):
+                    return False
+                return True if all(v is True for v in vs) else None
+            if any(v is True for v in vs):
+                return True
+            return False if all(v is False for v in vs) else None
+        if isinstance(node, ast.Compare) and len(node.ops) == 1:
+            a, b = self.pval(node.left), self.pval(node.comparators[0])
+            op = node.ops[0]
+            if a is _MISSING or b is _MISSING or isinstance(a, Meta) or isinstance(b, Meta):
+                return None
+            if isinstance(op, (ast.Eq, ast.NotEq)):
+                if a == "truthy" or b == "truthy":
+                    other = b if a == "truthy" else a
+                    if other in (0, None, False):
+                        r = False
+                    else:
+                        return None
+                else:
+                    r = a == b
+                return r if isinstance(op, ast.Eq) else not r
+            if isinstance(op, (ast.In, ast.NotIn)) and isinstance(b, list):
+                r = a in b
+                return r if isinstance(op, ast.In) else not r
+            if isinstance(op, (ast.Is, ast.IsNot)):
+                if a == "truthy":
+                    r = False if b is None else None
+                    if r is None:
+                        return None
+                else:
+                    r = a is b
+                return r if isinstance(op, ast.Is) else not r
+            return None
+        v = self.pval(node)
+        if v is _MISSING or isinstance(v, Meta):
+            return None
+        if v == "truthy":
+            return True
+        return bool(v)
+
+    def key_test(self, node: ast.AST):
+        """(`in`/`not in`, key term) for `K in sample` tests"""
+        if (isinstance(node, ast.Compare) and len(node.ops) == 1 and isinstance(node.ops[0], (ast.In, ast.NotIn))
+                and ast.unparse(node.comparators[0]) in ("sample", "sample.keys()")):
+            k = self.sample_key(node.left)
+            return ("in" if isinstance(node.ops[0], ast.In) else "notin", k)
+        return None
+
+    def is_shape_cond(self, node: ast.AST) -> bool:
+        t = ast.unparse(node)
+        return any(s in t for s in (".ndim", "len(shape)", ".shape", "ndim ==", "ndim >", "isinstance(", "len(self."))
+
+    # ---- expressions -----------------------------------------------------------------------------
+    def is_meta_expr(self, node: ast.AST) -> bool:
+        """no tensor *value* flows into the expression (only shapes, ranks, devices, parameters, constants)"""
+        if isinstance(node, ast.Constant):
+            return True
+        if isinstance(node, ast.Name):
+            v = self.locals.get(node.id, _MISSING)
+            return isinstance(v, Meta) or (v is _MISSING and node.id not in ("sample",))
+        if isinstance(node, ast.Attribute):
+            if node.attr in ("shape", "ndim", "device", "dtype"):
+                return True
+            if ast.unparse(node).startswith("self."):
+                return True
+            return self.is_meta_expr(node.value)
+        if isinstance(node, ast.Call):
+            f = ast.unparse(node.func)
+            if isinstance(node.func, ast.Attribute) and node.func.attr in ("size", "dim"):
+                return True
+            if f in ("len", "tuple", "list", "map", "str", "int", "range", "max", "min", "any", "all", "isinstance",
+                     "IntegerListOrTupleString", "torch.ones", "torch.linspace", "torch.exp", "enumerate", "zip"):
+                return all(self.is_meta_expr(a) for a in node.args) and all(self.is_meta_expr(k.value) for k in node.keywords)
+            if (isinstance(node.func, ast.Attribute) and isinstance(node.func.value, ast.Name)
+                    and isinstance(self.locals.get(node.func.value.id), Meta)):
+                return all(self.is_meta_expr(a) for a in node.args)      # method of a non-tensor local
+            if (isinstance(node.func, ast.Attribute) and not isinstance(node.func.value, ast.Name)
+                    and not self.is_sample_sub(node.func.value) and self.is_meta_expr(node.func.value)):
+                return all(self.is_meta_expr(a) for a in node.args)      # method of a non-tensor value
+            if f.startswith(("torch.", "np.")) and f not in ("torch.zeros", "torch.tensor", "torch.cat", "torch.sqrt", "torch.where",
+                                                           "torch.stack", "torch.from_numpy", "torch.kthvalue"):
+                return all(self.is_meta_expr(a) for a in node.args) and all(self.is_meta_expr(k.value) for k in node.keywords)
+            return False
+        if isinstance(node, ast.Subscript):
+            if self.is_sample_sub(node):
+                k = None
+                try:
+                    k = self.sample_key(node.slice)
+                except Untranslatable:
+                    pass
+                return k is None      # a non-tensor entry of the sample (filename, slice_no, reconstruction_size, …)
+            return self.is_meta_expr(node.value)
+        if isinstance(node, (ast.BinOp,)):
+            return self.is_meta_expr(node.left) and self.is_meta_expr(node.right)
+        if isinstance(node, ast.UnaryOp):
+            return self.is_meta_expr(node.operand)
+        if isinstance(node, (ast.Tuple, ast.List)):
+            return all(self.is_meta_expr(e) for e in node.elts)
+        if isinstance(node, ast.IfExp):
+            return self.is_meta_expr(node.body) and self.is_meta_expr(node.orelse)
+        if isinstance(node, (ast.GeneratorExp, ast.ListComp, ast.Compare, ast.BoolOp, ast.Dict, ast.Starred, ast.Slice)):
+            return all(self.is_meta_expr(c) for c in ast.iter_child_nodes(node)
+                       if not isinstance(c, (ast.comprehension, ast.cmpop, ast.boolop, ast.expr_context)))
+        return False
+
+    def strip(self, node: ast.AST) -> ast.AST:
+        """remove layout-only wrappers"""
+        while True:
+            if isinstance(node, ast.Call):
+                f = node.func
+                if isinstance(f, ast.Attribute) and f.attr in IDENTITY_METHODS and not (
+                        isinstance(f.value, ast.Name) and f.value.id in ("torch", "T", "np")):
+                    node = f.value
+                    continue
+                if ast.unparse(f) in IDENTITY_FUNCS and node.args:
+                    node = node.args[0]
+                    continue
+                if ast.unparse(f) == "torch.stack" and node.args:
+                    node = node.args[0]
+                    continue
+                if ast.unparse(f) == "torch.tensor" and node.args and isinstance(node.args[0], (ast.Name, ast.Subscript)):
+                    node = node.args[0]
+                    continue
+            if isinstance(node, ast.BinOp) and isinstance(node.op, ast.Add) and ast.unparse(node.right) == "0.0":
+                node = node.left
+                continue
+            if isinstance(node, ast.Subscript) and not self.is_sample_sub(node) and ast.unparse(node.slice) in ("None", "_"):
+                node = node.value
+                continue
+            return node
+
+    def ev(self, node: ast.AST, dst: Loc | None = None):
+        """evaluate a tensor expression; returns a Loc (emitting instructions), a Zeros, or a Meta"""
+        node = self.strip(node)
+        if isinstance(node, ast.Name):
+            v = self.locals.get(node.id, _MISSING)
+            if v is _MISSING:
+                raise Untranslatable(f"{self.cls}: unbound local `{node.id}`")
+            return v
+        if self.is_sample_sub(node):
+            k = self.sample_key(node.slice)
+            if k is None:
+                return Meta("sample-meta")
+            kind = "mask" if k in (".samplingMask", ".acsMask", ".padding") else "data"
+            return Loc(k, kind=kind)
+        if isinstance(node, ast.Call) and ast.unparse(node.func) == "sample.get" and node.args:
+            k = self.sample_key(node.args[0])
+            return Loc(k) if k else Meta()
+        if isinstance(node, ast.Call) and ast.unparse(node.func) == "sample.pop" and node.args:
+            raise Untranslatable("pop outside a rename")
+        if isinstance(node, ast.Subscript) and isinstance(node.value, ast.List) and len(node.value.elts) == 1:
+            return self.ev(node.value.elts[0], dst)
+        if self.is_meta_expr(node):
+            return Meta()
+        t = ast.unparse(node)
+
+        def A(n):  # argument location
+            v = self.ev(n)
+            if not isinstance(v, Loc):
+                raise Untranslatable(f"{self.cls}: `{ast.unparse(n)}` is not a tensor location")
+            return v
+
+        def out(op, args, kind="data"):
+            d = dst
+            if d is None:
+                # an intermediate of the same expression can be overwritten in place
+                reuse = [a for a in args if a.temp and a.term in self.intermediate]
+                d = reuse[0] if reuse else self.fresh()
+                if not reuse:
+                    self.intermediate.add(d.term)
+            self.emit_assign(d.term, op, [a.term for a in args])
+            return Loc(d.term, temp=d.temp, kind=kind)
+
+        if isinstance(node, ast.Call):
+            f = ast.unparse(node.func)
+            args = node.args
+            kw = {k.arg: k.value for k in node.keywords}
+            if f in ("T.apply_mask", "apply_mask") and len(args) >= 2:
+                x, m = A(args[0]), A(args[1])
+                return out(".applyMask", [m, x])
+            if f == "T.apply_padding" and len(args) == 2:
+                x, p = A(args[0]), A(args[1])
+                return out(".applyPadding", [p, x], kind=x.kind)
+            if f == "T.safe_divide" and len(args) == 2:
+                x, y = A(args[0]), A(args[1])
+                return out(".safeDiv", [y, x])
+            if f == "T.modulus" and args:
+                inner = args[0]
+                return out(".modulus", [A(inner)])
+            if f == "T.root_sum_of_squares" and args:
+                return out(".rss", [A(args[0])])
+            if f == "torch.sqrt" and len(args) == 1:
+                m_ = _match_rss(args[0])
+                if m_ is not None:
+                    return out(".rss", [A(m_)])
+            if f == "self.backward_operator" and args:
+                return out("(.lin .bwd)", [A(args[0])])
+            if f == "self.forward_operator" and args:
+                return out("(.lin .fwd)", [A(args[0])])
+            if f == "T.complex_center_crop" and args:
+                return out("(.lin .cropMask)", [A(args[0])], kind="mask")
+            if f == "T.complex_image_resize" and args:
+                return out("(.lin .rescale)", [A(args[0])])
+            if f == "T.pad_tensor" and args:
+                return out("(.lin .pad)", [A(args[0])])
+            if f == "self.crop_func":
+                stars = [k for k in node.keywords if k.arg is None]
+                if len(stars) == 1 and ast.unparse(stars[0].value) in self.dicts:
+                    d = self.dicts[ast.unparse(stars[0].value)]
+                    dl = d.get("data_list")
+                    if isinstance(dl, ast.List) and len(dl.elts) == 1:
+                        center = self.params.get("self.image_space_center_crop")
+                        seeded = "seed" in d
+                        if center is True and seeded or center is False and not seeded:
+                            raise Untranslatable("CropKspace: seed argument does not follow image_space_center_crop")
+                        c = "true" if center else "false"
+                        return out(f"(.lin (.crop {c} useSeed))", [A(dl.elts[0])])
+                raise Untranslatable("CropKspace: crop_func call")
+            if f == "self.mask_func":
+                acs = ast.unparse(kw.get("return_acs", ast.Constant(False)))
+                if acs not in ("True", "False"):
+                    raise Untranslatable(f"mask_func return_acs `{acs}`")
+                seed = kw.get("seed")
+                sv = self.locals.get(ast.unparse(seed)) if isinstance(seed, ast.Name) else None
+                seedterm = "seed" if isinstance(sv, Meta) and sv.what == "seed" else "none"
+                shape = kw.get("shape")
+                shv = self.locals.get(ast.unparse(shape)) if isinstance(shape, ast.Name) else None
+                from_crop = "true" if isinstance(shv, Meta) and shv.what == "shape-param" else "false"
+                src = ".acs" if acs == "True" else ".sampling"
+                return out(f"(.extMask {src} {seedterm} {from_crop})", [Loc(".kspace")], kind="mask")
+            if f == "self.espirit_calibrator":
+                return out(".espirit", [Loc(self.keyvars.get("self.kspace_key", ".kspace"))])
+            if f == "self.split_method":
+                raise Untranslatable("split_method outside the splitter pattern")
+            if f == "torch.zeros" and args:
+                like = None
+                a0 = args[0]
+                if isinstance(a0, ast.Attribute) and a0.attr == "shape":
+                    v = self.ev(a0.value)
+                    like = v if isinstance(v, Loc) else None
+                return Zeros(like)
+            if f == "torch.tensor" and args:
+                a0 = ast.unparse(args[0])
+                if a0.startswith("[1.0] * ") and a0.endswith(".size(0)"):
+                    src = self.ev(ast.parse(a0[len("[1.0] * "):-len(".size(0)")], mode="eval").body)
+                    if isinstance(src, Loc):
+                        return out(".constOne", [src])
+            if f == "torch.cat" and args and isinstance(args[0], ast.List) and len(args[0].elts) == 2:
+                z, x = self.ev(args[0].elts[0]), self.ev(args[0].elts[1])
+                if isinstance(z, Zeros) and isinstance(x, Loc) and ast.unparse(kw.get("dim", ast.Constant(None))) == "self.coil_dim":
+                    return out(".padCoils", [x])
+            if isinstance(node.func, ast.Attribute) and node.func.attr == "sum" and len(args) == 1:
+                which = ast.unparse(args[0])
+                inner = node.func.value
+                if which in ("self.coil_dim", "coil_dim"):
+                    m_ = _match_conj_mul(inner)
+                    if m_ is not None:
+                        return out(".senseCombine", [A(m_[0]), A(m_[1])])
+                    return out(".sumCoils", [A(inner)])
+                if which == "0":
+                    return out(".sumSlices", [A(inner)])
+            if isinstance(node.func, ast.Attribute) and node.func.attr == "amax":
+                inner = node.func.value
+                if isinstance(inner, ast.Call) and ast.unparse(inner.func) == "T.modulus":
+                    return out(".maxModulus", [A(inner.args[0])])
+        if isinstance(node, ast.BinOp) and isinstance(node.op, ast.Mult):
+            l, r = self.ev(node.left), self.ev(node.right)
+            if isinstance(l, Loc) and isinstance(r, Loc):
+                if r.kind == "mask":
+                    return out(".applyMask", [r, l])
+                if l.kind == "mask":
+                    return out(".applyMask", [l, r])
+            if isinstance(l, Loc) and isinstance(r, Meta):
+                return out("(.lin .gaussWeight)", [l])
+            if isinstance(r, Loc) and isinstance(l, Meta):
+                return out("(.lin .gaussWeight)", [r])
+        if isinstance(node, ast.BinOp) and isinstance(node.op, ast.Div):
+            l, r = self.ev(node.left), self.ev(node.right)
+            if isinstance(l, Loc) and isinstance(r, Loc):
+                return out(".divUnsafe", [r, l])
+        if isinstance(node, ast.Compare) and len(node.ops) == 1 and isinstance(node.ops[0], (ast.Lt, ast.LtE, ast.Gt, ast.GtE)):
+            names = {n.id for n in ast.walk(node) if isinstance(n, ast.Name)} - {"torch", "self"}
+            if len(names) == 1:
+                v = self.locals.get(next(iter(names)))
+                if isinstance(v, Loc):
+                    return out("(.threshold thr)", [v], kind="mask")
+        raise Untranslatable(f"{self.cls}: tensor expression `{t[:80]}`")
+
+    # ---- statements ------------------------------------------------------------------------------
+    def run_body(self, stmts, meta_only=False):
+        for st in stmts:
+            if self.stmt(st, meta_only) == "return":
+                return "return"
+        return None
+
+    def store(self, key_node: ast.AST, value: ast.AST, meta_only: bool):
+        k = self.sample_key(key_node)
+        vnode = self.strip(value)
+        if k is None:
+            if self.is_meta_expr(vnode) or (self.is_sample_sub(vnode) and ast.unparse(vnode.slice) == ast.unparse(key_node)):
+                return          # a non-tensor entry of the sample
+            raise Untranslatable(f"{self.cls}: tensor stored under non-tensor key `{ast.unparse(key_node)}`")
+        if self.is_sample_sub(vnode) and self.sample_key(vnode.slice) == k:
+            # dtype conversion in place: `sample[k] = convert(sample[k])`
+            if not self.guards and k not in self.required:
+                self.required.append(k)
+                self.out.append(f".require {k}")
+            return
+        if isinstance(vnode, ast.Call) and ast.unparse(vnode.func) == "sample.pop" and vnode.args:
+            src = self.sample_key(vnode.args[0])
+            self.out.append(f".move {src} {k}")
+            return
+        if meta_only:
+            raise Untranslatable(f"{self.cls}: tensor store under a rank condition")
+        v = self.ev(vnode, dst=None) if isinstance(vnode, ast.Name) else self.ev(vnode, dst=Loc(k))
+        if isinstance(v, Meta):
+            return
+        if not isinstance(v, Loc):
+            raise Untranslatable(f"{self.cls}: cannot store `{ast.unparse(value)[:60]}`")
+        if v.term == k:
+            return
+        if v.temp and v.term not in self.consumed:
+            self.out.append(f".move {v.term} {k}")
+            self.consumed.add(v.term)
+            for n, lv in list(self.locals.items()):
+                if isinstance(lv, Loc) and lv.term == v.term:
+                    self.locals[n] = Loc(k, kind=lv.kind)
+        else:
+            self.emit_assign(k, ".copy", [v.term])
+
+    def stmt(self, st: ast.stmt, meta_only=False):
+        if isinstance(st, ast.Expr):
+            v = st.value
+            if isinstance(v, ast.Constant):
+                return None
+            t = ast.unparse(v)
+            if t.startswith(("warnings.warn", "assert_complex", "self.logger", "logger.")):
+                return None
+            raise Untranslatable(f"{self.cls}: statement `{t[:60]}`")
+        if isinstance(st, ast.Assert):
+            return None
+        if isinstance(st, ast.Return):
+            if st.value is not None and ast.unparse(st.value) != "sample":
+                self.retval = self.ev(st.value)
+            return "return"
+        if isinstance(st, ast.Raise):
+            return "raise"
+        if isinstance(st, ast.Delete):
+            for tg in st.targets:
+                if self.is_sample_sub(tg):
+                    k = self.sample_key(tg.slice)
+                    if k:
+                        self.out.append(f".delete {k}")
+            return None
+        if isinstance(st, ast.If):
+            return self.if_stmt(st, meta_only)
+        if isinstance(st, ast.Assign) and len(st.targets) == 1:
+            tg = st.targets[0]
+            if isinstance(tg, ast.Tuple) and len(tg.elts) == 2 and ast.unparse(tg.elts[1]) == "_":
+                tg = tg.elts[0]          # `x, _ = T.apply_mask(...)`
+            if self.is_sample_sub(tg):
+                self.store(tg.slice, st.value, meta_only)
+                return None
+            if isinstance(tg, ast.Subscript) and isinstance(tg.value, ast.Name):
+                name = tg.value.id
+                cur = self.locals.get(name)
+                if name in self.dicts and isinstance(tg.slice, ast.Constant):
+                    self.dicts[name][tg.slice.value] = st.value
+                    return None
+                if isinstance(cur, Zeros) and ast.unparse(tg.slice) == "(..., 0)" and ast.unparse(st.value) == "1.0" and cur.like:
+                    d = self.fresh()
+                    self.emit_assign(d.term, ".unitMap", [cur.like.term])
+                    self.locals[name] = d
+                    return None
+                if isinstance(cur, Meta) or self.is_meta_expr(st.value) and not isinstance(cur, Loc):
+                    return None
+                raise Untranslatable(f"{self.cls}: element assignment `{ast.unparse(st)[:60]}`")
+            if isinstance(tg, ast.Name):
+                name = tg.id
+                if isinstance(st.value, ast.Dict):
+                    self.dicts[name] = {self.tr.string(k): v for k, v in zip(st.value.keys, st.value.values)}
+                    self.locals[name] = Meta("dict")
+                    return None
+                sv = self.seed_value(st.value)
+                if sv is not None:
+                    self.locals[name] = sv
+                    return None
+                if name == "shape" and "self.shape" in ast.unparse(st.value):
+                    self.locals[name] = Meta("shape-param")
+                    return None
+                # method of the same class returning a tensor
+                if (isinstance(st.value, ast.Call) and ast.unparse(st.value.func).startswith("self.")
+                        and ast.unparse(st.value.func)[5:] in self.methods()):
+                    sub = find_function(self.tree, f"{self.cls}.{ast.unparse(st.value.func)[5:]}")
+                    self.retval = None
+                    self.run_body(sub.body)
+                    self.locals[name] = self.retval
+                    return None
+                if self.is_meta_expr(self.strip(st.value)) and not isinstance(self.strip(st.value), ast.Name):
+                    self.locals[name] = Meta()
+                    return None
+                cur = self.locals.get(name)
+                stripped = self.strip(st.value)
+                # in-place update of a temporary (`x = f(x)`)
+                dst = cur if isinstance(cur, Loc) and cur.temp and any(
+                    isinstance(n, ast.Name) and n.id == name for n in ast.walk(stripped)) else None
+                if meta_only and not isinstance(stripped, ast.Name):
+                    # under a rank condition: layout-only code, or the slice sum
+                    if not (isinstance(stripped, ast.Call) and isinstance(stripped.func, ast.Attribute)
+                            and stripped.func.attr == "sum" and ast.unparse(stripped.args[0]) == "0"):
+                        raise Untranslatable(f"{self.cls}: tensor code under a rank condition `{ast.unparse(st)[:60]}`")
+                v = self.ev(stripped, dst=dst)
+                self.locals[name] = v
+                self.intermediate.clear()      # named now
+                return None
+            if isinstance(tg, ast.Tuple):
+                if self.is_meta_expr(st.value):
+                    for e in tg.elts:
+                        if isinstance(e, ast.Name):
+                            self.locals[e.id] = Meta()
+                    return None
+        raise Untranslatable(f"{self.cls}: statement `{ast.unparse(st)[:70]}`")
+
+    def methods(self):
+        cls = next(n for n in ast.walk(self.tree) if isinstance(n, ast.ClassDef) and n.name == self.cls)
+        return {n.name for n in cls.body if isinstance(n, ast.FunctionDef)}
+
+    def seed_value(self, node: ast.AST):
+        if isinstance(node, ast.IfExp) and "map(ord" in ast.unparse(node.orelse) and ast.unparse(node.body) == "None":
+            return Meta("seed")
+        return None
+
+    def if_stmt(self, st: ast.If, meta_only):
+        kt = self.key_test(st.test)
+        if kt is not None:
+            how, k = kt
+            body_raises = any(isinstance(s, ast.Raise) for s in st.body)
+            body_returns = any(isinstance(s, ast.Return) for s in st.body)
+            if how == "notin" and body_raises and not st.orelse:
+                if k is not None:
+                    self.out.append(f".require {k}")
+                return None
+            if how == "notin" and body_returns and not st.orelse and len(st.body) == 1:
+                if k is not None:
+                    self.guards.append(k)        # the rest of the method runs only when the key is present
+                return None
+            if how == "in" and not st.orelse:
+                if k is None:
+                    self.run_body(st.body, meta_only=True)
+                    return None
+                self.guards.append(k)
+                r = self.run_body(st.body, meta_only)
+                self.guards.pop()
+                return r
+            raise Untranslatable(f"{self.cls}: key test `{ast.unparse(st.test)}`")
+        # `if scaling_factor is not None:` for a value obtained by sample.get(key, None)
+        t = st.test
+        if (isinstance(t, ast.Compare) and len(t.ops) == 1 and isinstance(t.ops[0], ast.IsNot)
+                and ast.unparse(t.comparators[0]) == "None" and isinstance(t.left, ast.Name)
+                and isinstance(self.locals.get(t.left.id), Loc) and not st.orelse):
+            self.guards.append(self.locals[t.left.id].term)
+            r = self.run_body(st.body, meta_only)
+            self.guards.pop()
+            return r
+        v = self.truth(st.test)
+        if v is True:
+            return self.run_body(st.body, meta_only)
+        if v is False:
+            return self.run_body(st.orelse, meta_only) if st.orelse else None
+        # undecided: a condition on ranks / shapes / types / counts — only layout code may depend on it
+        if self.is_shape_cond(st.test) or self.is_meta_expr(st.test) or all(isinstance(s, ast.Raise) for s in st.body):
+            if all(isinstance(s, ast.Raise) for s in st.body) and not st.orelse:
+                return None       # a precondition on shapes / counts
+            if any(isinstance(s, ast.Return) for s in st.body) and not st.orelse and len(st.body) == 1:
+                return None       # early exit on a count (nothing to do)
+            self.run_body(st.body, meta_only=True)
+            if st.orelse:
+                self.run_body(st.orelse, meta_only=True)
+            return None
+        raise Untranslatable(f"{self.cls}: condition `{ast.unparse(st.test)[:60]}`")
+
+    def finish(self) -> list[str]:
+        for t in self.used_temps:
+            if t not in self.consumed:
+                self.out.append(f".delete {t}")
+        return coalesce(self.out)
+
+    def run(self) -> list[str]:
+        self.retval = None
+        self.run_body(self.fn.body)
+        return self.finish()
+
+
+def _parse_instr(i: str):
+    """(kind, guards, dst, op, args) of an emitted instruction string"""
+    if i.startswith(".assign "):
+        rest = i[len(".assign "):]
+        g_end = rest.index("]")
+        guards = [x.strip() for x in rest[1:g_end].split(",") if x.strip()]
+        rest = rest[g_end + 1:].strip()
+        a_start = rest.rindex("[")
+        args = [x.strip() for x in rest[a_start + 1:-1].split(",") if x.strip()]
+        head = rest[:a_start].strip()
+        dst, op = head.split(" ", 1)
+        return ("assign", guards, dst, op.strip(), args)
+    if i.startswith(".move "):
+        _, a, b = i.split(" ", 2)
+        return ("move", [], b, None, [a])
+    if i.startswith(".delete "):
+        return ("delete", [], i.split(" ", 1)[1], None, [])
+    if i.startswith(".require "):
+        return ("require", [], None, None, [i.split(" ", 1)[1]])
+    raise Untranslatable(f"instruction `{i}`")
+
+
+def _fmt_instr(p) -> str | None:
+    kind, guards, dst, op, args = p
+    if kind == "assign":
+        return f".assign [{', '.join(guards)}] {dst} {op} [{', '.join(args)}]"
+    if kind == "move":
+        return None if args[0] == dst else f".move {args[0]} {dst}"
+    if kind == "delete":
+        return f".delete {dst}"
+    return f".require {args[0]}"
+
+
+def coalesce(instrs: list[str]) -> list[str]:
+    """register coalescing: a temporary whose value ends up under sample key K (last use `move t K`, or sole argument
+    of the final `K ← op [t]`) lives in K from its definition on, provided K is neither read nor written in between"""
+    prog = [_parse_instr(i) for i in instrs]
+    changed = True
+    while changed:
+        changed = False
+        for t in reversed(TEMPS):
+            idx = [n for n, p in enumerate(prog) if p[2] == t or t in p[4] or t in p[1]]
+            if not idx:
+                continue
+            first = idx[0]
+            uses = [n for n in idx if prog[n][0] != "delete"]
+            last = uses[-1]
+            kind, guards, dst, op, args = prog[last]
+            if guards or prog[first][0] != "assign" or prog[first][1] or prog[first][2] != t or first == last:
+                continue
+            if kind == "move" and args == [t] and dst not in TEMPS:
+                K = dst
+            elif kind == "assign" and args.count(t) == 1 and len(args) == 1 and dst not in TEMPS:
+                K = dst
+            else:
+                continue
+            between = prog[first + 1:last]
+            if any(p[2] == K or K in p[4] or K in p[1] for p in between):
+                continue
+            if any(t in p[4] or t in p[1] or (p[2] == t and p[0] != "delete") for p in prog[last + 1:]):
+                continue
+            ren = lambda x: K if x == t else x   # noqa: E731
+            new = []
+            for n, p in enumerate(prog):
+                if first <= n <= last:
+                    p = (p[0], [ren(g) for g in p[1]], ren(p[2]) if p[2] else p[2], p[3], [ren(a) for a in p[4]])
+                if p[0] == "delete" and p[2] == t:
+                    continue
+                new.append(p)
+            prog = new
+            changed = True
+            break
+    out = [_fmt_instr(p) for p in prog]
+    return [o for o in out if o is not None]
+
+
+def _match_rss(node: ast.AST):
+    """`(X ** 2).sum(self.complex_dim).sum(self.coil_dim)` -> X"""
+    t = node
+    try:
+        if (isinstance(t, ast.Call) and t.func.attr == "sum" and ast.unparse(t.args[0]) == "self.coil_dim"):
+            t = t.func.value
+            if isinstance(t, ast.Call) and t.func.attr == "sum" and ast.unparse(t.args[0]) == "self.complex_dim":
+                t = t.func.value
+                if isinstance(t, ast.BinOp) and isinstance(t.op, ast.Pow) and ast.unparse(t.right) == "2":
+                    return t.left
+    except AttributeError:
+        pass
+    return None
+
+
+def _match_conj_mul(node: ast.AST):
+    """`T.complex_multiplication(T.conjugate(A), B)` -> (A, B)"""
+    if isinstance(node, ast.Call) and ast.unparse(node.func) == "T.complex_multiplication" and len(node.args) == 2:
+        a = node.args[0]
+        if isinstance(a, ast.Call) and ast.unparse(a.func) == "T.conjugate" and len(a.args) == 1:
+            return a.args[0], node.args[1]
+    return None
